@@ -54,6 +54,7 @@ class Feat:
         self.raw_symbolic_slot = False
         self.big_offsets = False
         self.if_weight = 3
+        self.n_bases = 4
         self.guards = 2
         self.__dict__.update(kw)
 
@@ -99,11 +100,11 @@ class ProgGen:
         ch, a, f = self.ch, self.a, self.f
         kinds = ["scalar"]
         if f.mapping and f.hashing:
-            kinds += ["map", "map", "array", "nested", "packedkey"]
+            kinds += ["map", "map", "array", "nested", "packedkey", "arrayconst", "mapconst", "reordered"]
         if f.raw_symbolic_slot:
             kinds += ["rawsym"]
         k = ch.choose(kinds, lbl + ".sk")
-        base = ch.pick(4, lbl + ".base")
+        base = ch.pick(self.f.n_bases, lbl + ".base")
         if k == "scalar":
             a.push(base)
         elif k == "map":
@@ -120,6 +121,31 @@ class ProgGen:
             a.push(base).push(0).op("MSTORE")
             a.push(0x20).push(0).op("SHA3")
             a.op("ADD")
+        elif k == "arrayconst":
+            # the compiler's form of a[i +- d]: a precomputed constant keccak(base) +- delta, plus the index
+            from .keccak import keccak256
+
+            h = int.from_bytes(keccak256(base.to_bytes(32, "big")), "big")
+            delta = ch.choose([0, 1, -1, 2, -2], lbl + ".hd")
+            a.push((h + delta) & M256)
+            self.key_expr(lbl + ".i", small=True)
+            if ch.chance(0.5, lbl + ".swap"):
+                a.op("SWAP1")
+            a.op("ADD")
+        elif k == "mapconst":
+            # m[k] for a concrete k, as the precomputed constant keccak(k . base) (+ struct member offset)
+            from .keccak import keccak256
+
+            key = ch.pick(3, lbl + ".mk")
+            h = int.from_bytes(keccak256(key.to_bytes(32, "big") + base.to_bytes(32, "big")), "big")
+            a.push((h + ch.choose([0, 0, 1, 2], lbl + ".mo")) & M256)
+        elif k == "reordered":
+            # (off + keccak(base)) + idx  with the additions associated the other way round
+            self.key_expr(lbl + ".i", small=True)
+            a.push(ch.choose([1, 2], lbl + ".ro"))
+            a.push(base).push(0).op("MSTORE")
+            a.push(0x20).push(0).op("SHA3")
+            a.op("ADD").op("ADD")
         elif k == "nested":
             # keccak(k2 . keccak(k1 . base))
             self.key_expr(lbl + ".k1")
